@@ -337,6 +337,33 @@ def check_all(ck, tier):
                 while src[0] == "cast":
                     src = forward.leafify(src[2])
                 ok = ok and src == ("arg", 1)
+            if not ok and "::{closure" in p:
+                # the reinterpretation sits in a closure handed to `self.instance.and_then(..)` / `.map(..)`: it only runs for Some
+                parent = fns.get(p.split("::{closure")[0])
+                if parent is not None:
+                    pb = mir.Body(parent)
+                    guards = [(bi, tt) for bi, tt in pb.calls() if (mir.callee_path(tt) or "").endswith(("Option::<T>::and_then", "Option::<T>::map"))]
+                    ok2 = len(guards) == 1
+                    if ok2:
+                        recv = mir.peel_place(forward.leafify(pb.origin_operand(guards[0][1]["args"][0])))
+                        ok2 = recv[0] == "field" and recv[2] == "instance" and mir.peel_place(forward.leafify(recv[1])) == ("arg", 1)
+                        clo = forward.leafify(pb.origin_operand(guards[0][1]["args"][1]))
+                        ok2 = ok2 and clo[0] == "agg" and clo[1] in (p, "closure:" + p)
+                        if ok2:
+                            def bare(x):
+                                x = forward.leafify(x)
+                                while x[0] in ("ref", "deref"):
+                                    x = forward.leafify(x[1])
+                                return x
+                            caps = [bare(x) for x in clo[4]]
+                            src = forward.leafify(body.origin_operand(t["args"][0]))
+                            while src[0] == "cast":
+                                src = forward.leafify(src[2])
+                            src = mir.peel_place(src)
+                            # the pointer reinterpreted is a capture of the closure, and that capture is the parent's own argument
+                            ok2 = src[0] == "field" and mir.peel_place(forward.leafify(src[1])) == ("arg", 1) and str(src[2]).isdigit() \
+                                and int(src[2]) < len(caps) and caps[int(src[2])] == ("arg", 1)
+                    ok = ok2
             ck.ob("G-reinterpret-only-when-some", "cglue/" + p, ok, "%s reinterprets a CArc as CArcSome without being dominated by the `instance.is_none() == false` arm" % p, sample={"fn": p})
     ck.floor("CArc->CArcSome reinterpretations", n_g, 2)
     # empty state
